@@ -70,6 +70,31 @@ fn parse_backtrace(bt: &str) -> ((String, String), Vec<String>) {
     (repo_frame, head)
 }
 
+/// name of the storage.rs function that is about to write (called from inside the before_write hook): the innermost
+/// frame in storage.rs that is not the batch commit helper itself, e.g. "filter_block", "rollback_to_block"
+pub fn storage_op_from_backtrace() -> String {
+    let bt = std::backtrace::Backtrace::force_capture().to_string();
+    let prefix = repo_src_prefix();
+    let mut cur_sym = String::new();
+    for line in bt.lines() {
+        let t = line.trim();
+        if let Some(rest) = t.strip_prefix("at ") {
+            if rest.starts_with(&prefix) && rest[prefix.len()..].starts_with("storage.rs") {
+                let name = short_fn(cur_sym.rsplit_once("::h").map(|(a, _)| a).unwrap_or(&cur_sym));
+                let last = name.rsplit("::").next().unwrap_or("").to_string();
+                if last != "commit" && last != "before_write" && !last.is_empty() {
+                    return last;
+                }
+            }
+        } else if let Some(pos) = t.find(": ") {
+            if t[..pos].chars().all(|c| c.is_ascii_digit()) {
+                cur_sym = t[pos + 2..].to_string();
+            }
+        }
+    }
+    "?".to_string()
+}
+
 pub fn install_panic_hook() {
     HOOK.call_once(|| {
         std::panic::set_hook(Box::new(|info| {
